@@ -485,6 +485,51 @@ pub fn run_static_opt(tc: &dtr::TestCase, max: usize, seed: u64, budget: u64, ca
     }
 }
 
+/// The dynamic iterator driven by the crate's own public `static_test::Driver`, every row turned
+/// into a `StaticDataRow` with the public `From` impl: what `try_iter_static` is documented to yield.
+pub fn run_public_static_driver(tc: &dtr::TestCase, max: usize, seed: u64, budget: u64, carry_on: bool) -> StaticObs {
+    hooks::set_seed_override(Some(seed));
+    let r = guard(budget, || {
+        let mut driver = dtr::static_test::Driver;
+        let mut it = match tc.try_iter(&mut driver) {
+            Ok(it) => it,
+            Err(e) => return StaticObs::NotStatic(miette_chain(&e)),
+        };
+        let mut rows = vec![];
+        let mut ended = false;
+        for _ in 0..=max {
+            match it.next() {
+                None => {
+                    ended = true;
+                    break;
+                }
+                Some(Ok(row)) => {
+                    let r = dtr::static_test::StaticDataRow::from(row);
+                    rows.push(Ok(StaticRow {
+                        line: r.line,
+                        inputs: r.inputs.iter().map(|i| (i.signal.name.clone(), V::from(i.value), i.changed)).collect(),
+                        expected: r.expected.iter().map(|e| (e.signal.name.clone(), V::from(e.value))).collect(),
+                    }))
+                }
+                Some(Err(e)) => {
+                    rows.push(Err(miette_chain(&e)));
+                    if !carry_on {
+                        break;
+                    }
+                }
+            }
+        }
+        StaticObs::Rows(rows, ended)
+    });
+    hooks::set_seed_override(None);
+    let _ = hooks::take_draw_log();
+    match r {
+        Ok(o) => o,
+        Err(Caught::Panic(s)) => StaticObs::Panic(s),
+        Err(Caught::Watchdog) => StaticObs::Watchdog,
+    }
+}
+
 /// A driver that answers every call with the same values and can be sent to another thread.
 struct ConstDriver<'a> {
     outs: Vec<(&'a dtr::Signal, dtr::OutputValue)>,
